@@ -348,6 +348,9 @@ class Diagram(cat.Arrow):
                 left = layers.cod[:off] if layers else dom[:off]
                 right = layers.cod[off + len(box.dom):]\
                     if layers else dom[off + len(box.dom):]
+                if len(left) != off:  # offset negative or out of range
+                    raise cat.AxiomError(messages.does_not_compose(
+                        layers[-1] if layers else cat.Id(dom), box))
                 layers = layers >> Layer(left, box, right)
             layers = layers >> cat.Id(cod)
         self._layers, self._offsets = layers, tuple(offsets)
